@@ -239,6 +239,29 @@ fn header_soup(rng: &mut Rng) -> String {
     s
 }
 
+const FS: &[&str] = &[
+    "{", "}", "{", "}", "{{", "}}", "=", " = ", "!r", "!s", "!x", ":", ":>{w}", "\u{e9}", "\u{65e5}", "\u{1d11e}", "'a'", "\"b\"", "'\u{e9}'", "\\N{", "\\N{\u{e9}", "\\N{DIGIT ONE}", "x", "y", " ", "\r\n", "\n", "\r",
+    "(", ")", "[", "]", "lambda", ":=", "==", "!=", "a b", "1", ".", ",", "'", "\"", "\\", "#", "\u{feff}", "'''", "1 2", "x y=", "\u{e9} \u{e9}",
+];
+
+/// An f-string whose body is a soup of field syntax (braces, `=`, conversions, specs, nested quotes, escapes), multi-byte
+/// characters and line breaks: the nested field parser computes error positions on a reconstructed text.
+fn fstring_soup(rng: &mut Rng) -> String {
+    let q = ["'", "\"", "'''", "\"\"\""][rng.below(4)];
+    let mut s = String::new();
+    s.push_str(["", "x = ", "\u{e9} = 1\n", "(\n", "\u{feff}"][rng.below(5)]);
+    s.push_str(["f", "F", "rf", "fR", "f", "f"][rng.below(6)]);
+    s.push_str(q);
+    for _ in 0..(1 + rng.below(12)) {
+        s.push_str(FS[rng.below(FS.len())]);
+    }
+    if rng.below(10) != 0 {
+        s.push_str(q);
+    }
+    s.push_str(["", "\n", " 'z'", ")"][rng.below(4)]);
+    s
+}
+
 fn token_soup(rng: &mut Rng, maxlen: usize) -> String {
     let n = 1 + rng.below(40);
     let mut s = String::new();
@@ -290,6 +313,7 @@ pub fn op_fuzz(args: &[&str], payload: &[u8]) -> String {
             0 | 1 => token_soup(&mut rng, maxlen),
             2 | 3 | 4 => literal_soup(&mut rng),
             5 | 6 => header_soup(&mut rng),
+            7 => fstring_soup(&mut rng),
             _ => mutate(&mut rng, &seeds, maxlen),
         };
         let (mname, mode) = [("exec", Mode::Module), ("single", Mode::Interactive), ("eval", Mode::Expression)][rng.below(3)];
